@@ -391,3 +391,68 @@ func (d *Definitions) XML() string {
 	b.WriteString("</bpmn:definitions>\n")
 	return b.String()
 }
+
+// nestBody moves everything between the process's start event "Start" and its end event "End" into an embedded
+// sub-process, `levels` deep (Start -> N1[ NS1 -> ...body... -> NE1 ] -> End). BPMN gives both drawings the same
+// behaviour (C12); the event nodes, boundary events and timers of the body then register with the sub-process
+// instead of the process, and every event handed to the instance has to pass one forwarding stage per level.
+// Returns false (graph untouched) if the body is not delimited by exactly one flow at either end.
+func nestBody(defs *Definitions, g *Graph, levels int) bool {
+	done := false
+	for l := 0; l < levels; l++ {
+		st, en := g.Node("Start"), g.Node("End")
+		if st == nil || en == nil || len(st.Out) != 1 || len(en.In) != 1 || len(en.Out) != 0 || len(st.In) != 0 {
+			return done
+		}
+		first, last := g.Flow(st.Out[0]), g.Flow(en.In[0])
+		if first == nil || last == nil || first == last {
+			return done
+		}
+		k := defs.fresh("N")
+		sg := &Graph{ID: "G" + k}
+		var keepN []*Node
+		for _, n := range g.Nodes {
+			if n == st || n == en {
+				keepN = append(keepN, n)
+			} else {
+				sg.Nodes = append(sg.Nodes, n)
+			}
+		}
+		sg.Flows = g.Flows
+		g.Flows = nil
+		ss := &Node{ID: "S" + k, Kind: "start", Out: []string{first.ID}}
+		se := &Node{ID: "E" + k, Kind: "end", In: []string{last.ID}}
+		first.From, last.To = ss.ID, se.ID
+		sg.Nodes = append(append([]*Node{ss}, sg.Nodes...), se)
+		h := &Node{ID: k, Kind: "sub", Sub: sg}
+		g.Nodes = []*Node{keepN[0], h}
+		for _, n := range keepN[1:] {
+			g.Nodes = append(g.Nodes, n)
+		}
+		st.Out, en.In = nil, nil
+		g.nodeBy, g.flowBy = nil, nil
+		g.connect(defs, st.ID, h.ID, nil, -1)
+		g.connect(defs, h.ID, en.ID, nil, -1)
+		g.index()
+		done = true
+	}
+	return done
+}
+
+// allNodes lists the nodes of the graph and of its sub-graphs.
+func (g *Graph) allNodes() []*Node {
+	var out []*Node
+	for _, n := range g.Nodes {
+		out = append(out, n)
+		if n.Sub != nil {
+			out = append(out, n.Sub.allNodes()...)
+		}
+	}
+	return out
+}
+
+// findN looks a node up in the graph or its sub-graphs (nil if absent).
+func findN(g *Graph, id string) *Node {
+	n, _ := g.FindNode(id)
+	return n
+}
